@@ -503,7 +503,7 @@ pub fn run_random(rec: &mut Rec, seed: u64, run: u64, nops: usize, stable: bool)
                         0 => p0,
                         1 => p0 / 2,
                         2 => p0.saturating_mul(2),
-                        3 => p0 + p0 / 100,
+                        3 => p0.saturating_add(p0 / 100),
                         _ => p0.saturating_sub(p0 / 100),
                     }.max(1))
                 } else { None };
